@@ -17,7 +17,7 @@ FN_DOMAIN = "c07.local"
 CUSTOM_DOMAIN = "custom.c07"
 
 # pattern kinds a host can be seeded with (what `plant` emits)
-PLANTS = ("neg", "sub", "add", "mul", "tt", "mul1", "add0", "split", "relu", "subrelu", "negneg", "diamond", "reluadd", "mul1c")
+PLANTS = ("neg", "sub", "add", "mul", "tt", "mul1", "add0", "split", "relu", "subrelu", "negneg", "diamond", "reluadd", "mul1c", "addmul")
 
 
 class Val:
@@ -196,6 +196,28 @@ class Scope:
             swap = rng.random() < 0.55
             r = self.emit("Mul", [c, a] if swap else [a, c], [a.ex * c.ex], planted=True)
             ctx.swapped += int(swap)
+        elif kind == "addmul":
+            # an instance of a pattern with TWO output nodes, Add(x, y) and Mul(x, z): the two matched nodes in either order,
+            # and (half of the time) an operand of the LATER one produced between them - where the replacement is inserted
+            # decides whether the result is still topologically sorted
+            a = self.pick()
+            b = self.pick(lambda v: v.shape == a.shape) or a
+            c = self.pick(lambda v: v.shape == a.shape) or a
+            order = rng.choice(["mul_first", "add_first"])
+            inter = rng.random() < 0.6
+            if order == "mul_first":
+                m = self.emit("Mul", [a, c], [a.ex * c.ex], planted=True)
+                if inter:
+                    b = self.emit("Neg", [b], [-b.ex])[0]
+                r = self.emit("Add", [a, b], [a.ex + b.ex], planted=True)
+            else:
+                s_ = self.emit("Add", [a, b], [a.ex + b.ex], planted=True)
+                if inter:
+                    c = self.emit("Neg", [c], [-c.ex])[0]
+                m = self.emit("Mul", [a, c], [a.ex * c.ex], planted=True)
+                r = s_
+            # both results stay alive
+            r = self.emit("Sub", [r[0], m[0]], [r[0].ex - m[0].ex])
         elif kind == "negneg":
             a = self.pick()
             t = self.emit("Neg", [a], [-a.ex])
@@ -388,7 +410,7 @@ def _function(ctx, main, n_plants):
 
 ROOT_OPS = {"neg": ("Neg",), "sub": ("Sub",), "add": ("Add",), "mul": ("Mul",), "tt": ("Transpose",), "mul1": ("Mul",), "add0": ("Add",),
             "split": ("Split",), "relu": ("Relu",), "subrelu": ("Relu", "Sub"), "negneg": ("Neg",), "diamond": ("Add", "Sub"),
-            "reluadd": ("Add", "Relu"), "mul1c": ("Mul",)}
+            "reluadd": ("Add", "Relu"), "mul1c": ("Mul",), "addmul": ("Add", "Mul")}
 
 
 def make_host(rng, plant, *, n_nodes=6, k_plants=2, subgraphs=True, functions=True, clash_name=None, custom_fn=False, nested_only=False,
